@@ -204,6 +204,59 @@ fn part_e(maxn: usize) -> Acc {
     acc
 }
 
+/// (f) the same laws on nodes with 22 .. 256 assertions (array heads, any size-dependent path in the duplicate check or the sort)
+fn part_f(th: bool) -> Acc {
+    let shapes: Vec<(String, M)> = families::wide_all(th).into_iter().filter(|(n, _)| n.starts_with("node-") || n.starts_with("sweep-node-") || n == "wide-node-as-object").collect();
+    shapes.par_iter().with_max_len(1).map(|(wn, m)| {
+        let mut acc = Acc::new();
+        let (sm, am) = match m { M::Node(s, a) => ((**s).clone(), a.clone()), _ => return acc };
+        let Ok(e) = catch(|| bind::build(m, 0)) else { return acc };
+        let want = m.encode().unwrap(); let n = am.len();
+        let aenv: Vec<Envelope> = am.iter().map(|a| bind::build(a, 0)).collect();
+        let cid = |what: &str, i: usize| format!("wide/{wn}/{what}/{i}");
+        let det = |r: &Envelope| json!({"shape": wn, "assertions_expected": n, "assertions_got": r.assertions().len()});
+        // every present assertion re-added through each API: no change
+        for (i, a) in aenv.iter().enumerate() {
+            acc.inc("law_checks");
+            let rs: Vec<(&str, Option<Envelope>)> = vec![
+                ("add_assertion_envelope", catch(|| e.add_assertion_envelope(a.clone()).ok()).ok().flatten()),
+                ("add_assertion_envelope_salted-false", catch(|| e.add_assertion_envelope_salted(a.clone(), false).ok()).ok().flatten()),
+                ("add_optional_assertion_envelope", catch(|| e.add_optional_assertion_envelope(Some(a.clone())).ok()).ok().flatten()),
+                ("add_assertions", catch(|| Some(e.add_assertions(&[a.clone()]))).ok().flatten()),
+            ];
+            for (api, r) in rs { match r {
+                None => acc.viol(format!("C07|wide|{api}|re-add-refused"), "re-adding a present assertion was refused or panicked", cid(api, i), json!({"shape": wn})),
+                Some(r) => if r.to_cbor_data() != want { acc.viol(format!("C07|wide|{api}|re-add-changes"), "adding an assertion that is already present changed the envelope", cid(api, i), det(&r)) },
+            } }
+            // remove, then add back: the same envelope; remove twice: the same as once
+            acc.inc("law_checks");
+            if let Ok(rm) = catch(|| e.remove_assertion(a.clone())) {
+                let mut rest = am.clone(); rest.remove(i);
+                let want_rm = if rest.is_empty() { sm.clone() } else { M::Node(Box::new(sm.clone()), rest) };
+                if Some(rm.to_cbor_data()) != want_rm.encode() { acc.viol("C07|wide|remove|not-the-model-result", "removing one assertion does not give subject + the remaining set", cid("remove", i), det(&rm)) }
+                if let Ok(Ok(back)) = catch(|| rm.add_assertion_envelope(a.clone())) { if back.to_cbor_data() != want { acc.viol("C07|wide|remove-add|differs", "remove then add does not restore the envelope", cid("remove-add", i), det(&back)) } }
+                if let Ok(rm2) = catch(|| rm.remove_assertion(a.clone())) { if rm2.to_cbor_data() != rm.to_cbor_data() { acc.viol("C07|wide|remove-twice|differs", "removing an absent assertion changed the envelope", cid("remove-twice", i), det(&rm2)) } }
+            } else { acc.viol("C07|wide|remove|panic", "remove_assertion panicked", cid("remove", i), json!({"shape": wn})) }
+        }
+        // forward order followed by the reverse order (every assertion twice), rotations with repetition: the model bytes
+        let s0 = bind::build(&sm, 0);
+        for (label, order) in [("forward+reverse", (0..n).chain((0..n).rev()).collect::<Vec<_>>()), ("reverse+forward", (0..n).rev().chain(0..n).collect()), ("interleaved-twice", (0..2 * n).map(|k| (k * 7 + k / n) % n).chain(0..n).collect())] {
+            acc.inc("assemblies");
+            let r = catch(|| { let mut x = s0.clone(); for i in &order { x = x.add_assertion_envelope(aenv[*i].clone()).unwrap() } x });
+            match r { Ok(r) => if r.to_cbor_data() != want { acc.viol("C07|wide|repetition|order-dependent-bytes", "the same assertion set added with repetition gives other bytes than the model encoding", cid(label, 0), det(&r)) } else { acc.nontrivial(&(wn.clone(), label)) },
+                Err(pn) => acc.viol(format!("C07|wide|panic|{}", pn.site), pn.msg.clone(), cid(label, 0), json!({"shape": wn})) }
+            acc.inc("assemblies");
+            let v: Vec<Envelope> = order.iter().map(|i| aenv[*i].clone()).collect();
+            if let Ok(r) = catch(|| s0.add_assertions(&v)) { if r.to_cbor_data() != want { acc.viol("C07|wide|add_assertions|order-dependent-bytes", "add_assertions with repetition gives other bytes than the model encoding", cid(label, 1), det(&r)) } }
+        }
+        // replace_subject keeps the set; replace_assertion(a, a) is the identity
+        acc.inc("law_checks");
+        if let Ok(r) = catch(|| e.replace_subject(Envelope::new("other"))) { let wm = M::Node(Box::new(M::Leaf(V::Text("other".into()))), am.clone()); if Some(r.to_cbor_data()) != wm.encode() { acc.viol("C07|wide|replace_subject|not-the-model-result", "replace_subject does not give the new subject with the same assertion set", cid("replace_subject", 0), det(&r)) } }
+        for i in [0, n / 2, n - 1] { if let Ok(Ok(r)) = catch(|| e.replace_assertion(aenv[i].clone(), aenv[i].clone())) { if r.to_cbor_data() != want { acc.viol("C07|wide|replace-same|differs", "replacing an assertion by itself changed the envelope", cid("replace-same", i), det(&r)) } } }
+        acc
+    }).reduce(Acc::new, Acc::merge)
+}
+
 pub fn run(ctx: &Ctx) -> i32 {
     let th = ctx.tier.thorough();
     let maxlen = if th { 6 } else { 5 };
@@ -213,10 +266,11 @@ pub fn run(ctx: &Ctx) -> i32 {
     acc = acc.merge(accb);
     let maxn = if th { 5 } else { 4 };
     acc = acc.merge(part_e(maxn));
+    acc = acc.merge(part_f(th));
     let evals = acc.get("assemblies") * 3 + acc.get("law_checks") + acc.get("collection_instances");
     let cov = json!({"states": st.states, "transitions": st.transitions, "traces_validated_against_impl": st.sequences + acc.get("assemblies") * 3,
         "evaluations": evals,
-        "rule": "(a) every insertion sequence (with repetition) up to the length bound over a 7-element assertion pool x 5 subjects x 3 add APIs, grouped by assertion set: all members byte-identical and equal to the model encoding; (b-d) add-present / add-remove / wrap-unwrap laws and receiver immutability at every state of the BFS; (e) collections in every insertion order in fresh instances; distinct = (subject, assertion set) / (collection type, contents)",
+        "rule": "(f) on nodes with 22..256 assertions: re-adding each present assertion through four APIs, remove / remove-add / remove-twice for each, three repetition orders, replace_subject, replace by itself - all against the model bytes; (a) every insertion sequence (with repetition) up to the length bound over a 7-element assertion pool x 5 subjects x 3 add APIs, grouped by assertion set: all members byte-identical and equal to the model encoding; (b-d) add-present / add-remove / wrap-unwrap laws and receiver immutability at every state of the BFS; (e) collections in every insertion order in fresh instances; distinct = (subject, assertion set) / (collection type, contents)",
         "exhaustive": true,
         "bounds": {"insertion_sequence_length": maxlen, "pool": 7, "bfs_depth": depth, "collection_elements": maxn},
         "bfs": {"states_per_depth": st.per_depth, "merged": st.merged, "refused": st.refused, "complete_sequences": st.sequences},
